@@ -34,7 +34,7 @@ META = dict(
     design_ref="4/C06")
 
 KINDS_Q = ["ladder", "over", "sized", "fast2", "near", "wrong", "tf5", "fast", "two", "iso", "half", "fast2", "spotfee", "tf15", "tf60", "spotover",
-           "spotover", "allin", "isoallin"]
+           "spotover", "allin", "isoallin", "flipper"]
 
 
 def run(ctx):
@@ -97,7 +97,7 @@ def run(ctx):
                         "actions": [a["a"] for a in cex[0][2]],
                         "events": [{k: v for k, v in e.items() if k != "act"} for e in t0["ev"] if e["k"] in ("fillb", "hook", "fille", "end")][:16]})
     # ---------------------------------------------------------------- T
-    items = K.vivo_items(ctx, ctx.pick(171, 1500), KINDS_Q, ctx.pick(240, 400))
+    items = K.vivo_items(ctx, ctx.pick(180, 1500), KINDS_Q, ctx.pick(240, 400))
     traces, by_id = K.run_vivo(ctx, items)
     bad_t, st_t = K.judge(ctx, "TraceHooksTrades", traces, "T", by_id, parts=ctx.pick(8, 14))
     for t in traces + sim_traces:
